@@ -127,13 +127,17 @@ Section Sim.
     simr c (params_loop k acc (set_cl s c l)) (params_loop k acc s).
   Proof.
     induction k as [|k IH]; intros acc s c l; cbn [params_loop]; [reflexivity|].
-    cbv zeta. autorewrite with scl. destruct (peek_is s T_COMMA); [apply IH|sim].
+    cbv zeta. autorewrite with scl. destruct (peek_is s T_COMMA); [|sim].
+    destruct (expect (ps_next s) T_IDENT) as [[|] s2]; cbv beta iota; cbn [negb];
+      autorewrite with scl; [apply IH|sim].
   Qed.
   Hint Resolve params_loop_sim : sim.
 
   Lemma parse_function_parameters_sim s c l :
     simr c (parse_function_parameters n (set_cl s c l)) (parse_function_parameters n s).
-  Proof. unfold parse_function_parameters. cbv zeta. sim. Qed.
+  Proof.
+    unfold parse_function_parameters. cbv zeta. sim. apply params_loop_sim.
+  Qed.
   Hint Resolve parse_function_parameters_sim : sim.
 
   Lemma block_loop_sim : forall k acc s c l,
